@@ -1073,6 +1073,175 @@ func c20RequiresCheck(run *Run, e *c20Env, r *rand.Rand) {
 	run.mu.Unlock()
 }
 
+// ---- field resolvers of entities (Product, Storage): each is answered by its own RPC for the entities of its type ---------------------
+
+var c20EntityResolvers = map[string][]c20Req{
+	"Product": {
+		{"recommendedCategory", "recommendedCategory(maxPrice: 10) { id name kind }", ""},
+		{"mascotRecommendation", "mascotRecommendation(includeDetails: true) { __typename id name }", ""},
+		{"stockStatus", "stockStatus(checkAvailability: true) { __typename ... on ActionSuccess { message } ... on ActionError { message code } }", ""},
+		{"productDetails", "productDetails(includeExtended: false) { id description }", ""},
+		{"shippingEstimate", "shippingEstimate(input: {destination: DOMESTIC, weight: 1.5, expedited: false})", ""},
+		{"name", "name", ""}, {"price", "price", ""},
+	},
+	"Storage": {
+		{"storageStatus", "storageStatus(checkHealth: true) { __typename ... on ActionSuccess { message } ... on ActionError { message code } }", ""},
+		{"linkedStorages", "linkedStorages(depth: 1) { id name }", ""},
+		{"nearbyStorages", "nearbyStorages(radius: 5) { id name }", ""},
+		{"name", "name", ""},
+	},
+}
+
+func (e *c20Env) loadEntityResolvers(sel map[string][]c20Req, order []string, variables string) (ents []any, raw string, err error) {
+	defer func() {
+		if r := recover(); r != nil {
+			err = fmt.Errorf("panic: %v", r)
+		}
+	}()
+	var frags []string
+	for _, t := range order {
+		var parts []string
+		for _, f := range sel[t] {
+			parts = append(parts, f.sel)
+		}
+		frags = append(frags, "... on "+t+" { __typename id "+strings.Join(parts, " ")+" }")
+	}
+	written := `query Q($representations: [_Any!]!) { _entities(representations: $representations) { ` + strings.Join(frags, " ") + ` } }`
+	// the engine hands the datasource normalized operations: argument literals are variables by then
+	norm := c03Normalize(e.def, written, []byte(variables), false)
+	if norm.Err != "" {
+		return nil, "", fmt.Errorf("normalization: %s", norm.Err)
+	}
+	query := norm.Printed
+	doc, rep := astparser.ParseGraphqlDocumentString(query)
+	if rep.HasErrors() {
+		return nil, "", fmt.Errorf("parse: %s", rep.Error())
+	}
+	ds, err := grpcdatasource.NewDataSource(grpcdatasource.NewGRPCTransport(e.conn), grpcdatasource.DataSourceConfig{
+		Operation: &doc, Definition: e.def, SubgraphName: "Products", Compiler: e.compiler, Mapping: e.mapping,
+		FederationConfigs: plan.FederationFieldConfigurations{{TypeName: "Storage", SelectionSet: "id"}, {TypeName: "Product", SelectionSet: "id"}}})
+	if err != nil {
+		return nil, "", fmt.Errorf("plan: %w", err)
+	}
+	out, err := ds.Load(context.Background(), nil, []byte(fmt.Sprintf(`{"query":%q,"body":{"variables":%s}}`, query, norm.Vars)))
+	if err != nil {
+		return nil, string(out), err
+	}
+	var resp struct {
+		Data struct {
+			Entities []any `json:"_entities"`
+		} `json:"data"`
+		Errors []any `json:"errors"`
+	}
+	dec := json.NewDecoder(strings.NewReader(string(out)))
+	dec.UseNumber()
+	if err := dec.Decode(&resp); err != nil {
+		return nil, string(out), err
+	}
+	if len(resp.Errors) > 0 {
+		return nil, string(out), fmt.Errorf("errors: %s", truncate(jsonStr(resp.Errors), 300))
+	}
+	return resp.Data.Entities, string(out), nil
+}
+
+func c20EntityResolverCheck(run *Run, e *c20Env, r *rand.Rand) {
+	n := 1 + r.Intn(5)
+	var reps, kinds []string
+	for i := 0; i < n; i++ {
+		t := pick(r, []string{"Product", "Storage", "Product", "Storage", "Warehouse"})
+		kinds = append(kinds, t)
+		reps = append(reps, fmt.Sprintf(`{"__typename":%q,"id":"%d"}`, t, 1+r.Intn(9)))
+	}
+	variables := `{"representations":[` + strings.Join(reps, ",") + `]}`
+	chosen := map[string][]c20Req{}
+	for _, t := range []string{"Product", "Storage"} {
+		all := c20EntityResolvers[t]
+		perm := r.Perm(len(all))
+		for _, i := range perm[:1+r.Intn(len(all))] {
+			chosen[t] = append(chosen[t], all[i])
+		}
+	}
+	names := func(sel map[string][]c20Req) map[string][]string {
+		out := map[string][]string{}
+		for t, fs := range sel {
+			out[t] = chosen2names(fs)
+		}
+		return out
+	}
+	in := map[string]any{"entityResolvers": true, "representations": json.RawMessage("[" + strings.Join(reps, ",") + "]"), "fields": names(chosen)}
+	full, rawFull, err := e.loadEntityResolvers(chosen, []string{"Product", "Storage"}, variables)
+	if err != nil {
+		run.Violate(Violation{Kind: "oracle", Clause: "entity_resolvers_answer", Input: in, Impl: rawFull, Detail: fmt.Sprintf("the lookup with fields %v fails: %v", names(chosen), err)}, "")
+		return
+	}
+	if len(full) != n {
+		run.Violate(Violation{Kind: "oracle", Clause: "entities_positional", Input: in, Impl: rawFull, Detail: fmt.Sprintf("%d representations, %d entities: %s", n, len(full), truncate(rawFull, 500))}, "")
+		return
+	}
+	for i, ent := range full {
+		m, _ := ent.(map[string]any)
+		switch {
+		case kinds[i] == "Warehouse" && ent == nil:
+		case m != nil && m["__typename"] == kinds[i] && fmt.Sprint(m["id"]) == c20RepID(reps[i]):
+		default:
+			run.Violate(Violation{Kind: "oracle", Clause: "entities_positional", Input: in, Impl: rawFull, Detail: fmt.Sprintf("entity %d answers a %s representation (%s) with %s", i, kinds[i], reps[i], truncate(jsonStr(ent), 300))}, "")
+			return
+		}
+	}
+	// one field of one type alone (with and without the other type's fragment), and the fragments in the other order
+	type alt struct {
+		sel   map[string][]c20Req
+		order []string
+	}
+	var alts []alt
+	for _, t := range []string{"Product", "Storage"} {
+		for _, f := range chosen[t] {
+			other := "Storage"
+			if t == "Storage" {
+				other = "Product"
+			}
+			alts = append(alts, alt{map[string][]c20Req{t: {f}, other: chosen[other]}, []string{"Product", "Storage"}})
+			alts = append(alts, alt{map[string][]c20Req{t: {f}}, []string{t}})
+		}
+	}
+	alts = append(alts, alt{chosen, []string{"Storage", "Product"}})
+	for _, a := range alts {
+		sub, rawSub, err := e.loadEntityResolvers(a.sel, a.order, variables)
+		in2 := map[string]any{"entityResolvers": true, "representations": in["representations"], "fields": names(a.sel), "order": a.order}
+		if err != nil {
+			run.Violate(Violation{Kind: "oracle", Clause: "entity_resolvers_answer", Input: in2, Impl: rawSub, Detail: fmt.Sprintf("the lookup with fields %v (fragments %v) fails, with %v it answers: %v", names(a.sel), a.order, names(chosen), err)}, "")
+			return
+		}
+		ok := len(sub) == n
+		for i := 0; ok && i < n; i++ {
+			fm, _ := full[i].(map[string]any)
+			sm, _ := sub[i].(map[string]any)
+			if !containsStr(a.order, kinds[i]) {
+				ok = sub[i] == nil
+				continue
+			}
+			if (fm == nil) != (sm == nil) {
+				ok = false
+				break
+			}
+			for _, f := range a.sel[kinds[i]] {
+				if fm != nil && !fedJSONEqual(fm[f.field], sm[f.field]) {
+					ok = false
+				}
+			}
+		}
+		if !ok {
+			run.Violate(Violation{Kind: "oracle", Clause: "entity_resolvers_stable_under_subset_selection", Input: in2, Impl: rawSub, Model: rawFull,
+				Detail: fmt.Sprintf("with fields %v (fragments %v) the lookup answers %s; with fields %v %s: a field's value must not depend on which other fields are selected", names(a.sel), a.order, truncate(rawSub, 700), names(chosen), truncate(rawFull, 700))}, "")
+			return
+		}
+	}
+	run.Feat("entity_resolver_lookup")
+	run.mu.Lock()
+	run.TracesVsImpl++
+	run.mu.Unlock()
+}
+
 func chosen2names(fs []c20Req) []string {
 	var out []string
 	for _, f := range fs {
@@ -1202,6 +1371,9 @@ func runC20(run *Run, replay string) Spec {
 				}
 				if k%10 == 8 {
 					c20RequiresCheck(run, e, r)
+				}
+				if k%10 == 2 {
+					c20EntityResolverCheck(run, e, r)
 				}
 				run.SetCurrent(w, c)
 				c20Check(run, e, c)
